@@ -166,8 +166,26 @@ def restoration_routes(repo, res, rid):
         if isinstance(la, ast.Call) and norm(la.func) == "_correct_old_unit_registry":
             uses_fixer = True
         elif isinstance(la, ast.Name):
-            defs_ = [n for n in walk_no_nested(ss.node) if isinstance(n, ast.Assign) and norm(n.targets[0]) == la.id and n.lineno < c.lineno]
-            uses_fixer = bool(defs_) and isinstance(defs_[-1].value, ast.Call) and norm(defs_[-1].value.func) == "_correct_old_unit_registry"
+            # on EVERY path that reaches the constructor the last binding of the table is the fixer's result (a fixer
+            # call under a condition on the table's format leaves current-format tables with pickled dimension symbols)
+            from engine.flow import enum_paths as _ep
+
+            n_reach, all_fixed = 0, True
+            for pth in _ep(ss.body, limit=20000):
+                last, reached = None, False
+                for ev in pth:
+                    node_ = ev[1] if len(ev) > 1 and isinstance(ev[1], ast.AST) else None
+                    if node_ is None:
+                        continue
+                    if any(x is c for x in ast.walk(node_)):
+                        reached = True
+                        break
+                    if ev[0] == "stmt" and isinstance(node_, ast.Assign) and any(norm(t) == la.id for t in node_.targets):
+                        last = node_.value
+                if reached:
+                    n_reach += 1
+                    all_fixed &= last is not None and isinstance(last, ast.Call) and norm(last.func) == "_correct_old_unit_registry"
+            uses_fixer = n_reach > 0 and all_fixed
     rec(len(ctors_) == 1 and uses_fixer, "setstate:uses-fixer", ss.where(), "the unpickled table passes through the fixer before the registry is built")
     # (ii) Unit.copy does not deep-copy sympy objects
     cp = repo.mod(UO).func("Unit.copy")
